@@ -224,6 +224,14 @@ func c12TokStr(r *core.Rand) string {
 		return "x-{{matrix.arch}}-{{matrix.os}}"
 	case 2:
 		return "{{matrix.os}"
+	case 3:
+		if r.Intn(3) == 0 {
+			// a backslash right before a token (Windows and UNC paths): the token is a token, the backslash stays
+			if c12Mode == 0 {
+				return `C:\\out\\{{matrix}}\\bin`
+			}
+			return core.Pick(r, []string{`C:\\out\\{{matrix.arch}}`, `\\\\srv\\{{ matrix.os }}\\x`, `\\{{matrix.zz}}`})
+		}
 	}
 	return gen.DefaultStr(r)
 }
